@@ -54,7 +54,7 @@ InitModel(D, oem) ==
 Begin(e) ==
    LET oem == Oem(e.cfg)
        D == Derive(e.raw, oem)
-   IN [pid |-> e.pid, dead |-> ~e.raw.ok, cfg |-> e.cfg, oem |-> oem, m |-> InitModel(D, oem), raw |-> e.raw, D |-> D,
+   IN [pid |-> e.pid, dead |-> ~e.raw.ok, pm |-> FALSE, cfg |-> e.cfg, oem |-> oem, m |-> InitModel(D, oem), raw |-> e.raw, D |-> D,
        rv |-> Get(e, "rv", [ok |-> FALSE]), sv |-> <<>>, svok |-> FALSE,
        mounted |-> FALSE, mountSt |-> e.raw.st, changed |-> FALSE, clk |-> e.clk, ro |-> TRUE,
        atime |-> Get(e.cfg, "atime", FALSE), U |-> e.raw.g.cell, fiUsable |-> FALSE, fiW |-> FALSE, fiTrust |-> TRUE, mountRaw |-> e.raw,
@@ -348,6 +348,15 @@ Step(s, e) ==
    IF e.op = "begin" THEN
         IF e.r.k # "ok" \/ ~Has(e, "raw") THEN [s |-> Dead, v |-> {}, dev |-> {}, note |-> {"SKIPBEGIN"}]
         ELSE [s |-> Begin(e), v |-> BeginViol(e), dev |-> {}, note |-> {}]
+   ELSE IF s.dead /\ Get(s, "pm", FALSE) /\ e.op \notin {"end", "crash", "poke"} THEN
+        \* the model was given up after a false clause (the results or the tree no longer follow it): the clauses of C03 that need no
+        \* model are still judged on every later image, every file treated as if its entry lagged (no size, chain or lost-cluster
+        \* demand); a fault, panic or skipped call ends that too
+        IF Has(e, "flt") \/ e.r.k \in {"panic", "hang", "skip"} THEN [s |-> [s EXCEPT !.pm = FALSE], v |-> {}, dev |-> {}, note |-> {}]
+        ELSE IF ~Has(e, "raw") \/ ~e.raw.ok THEN [s |-> s, v |-> {}, dev |-> {}, note |-> {}]
+        ELSE LET Dp == Derive(e.raw, s.oem)
+                 files == {Dp.rows[i].p : i \in {x \in 1..Len(Dp.rows) : ~Dp.rows[x].e.dir}}
+             IN [s |-> s, v |-> StructViol(e.raw, Dp, files, [p \in files |-> 0]) \ {"C03.lost"}, dev |-> {}, note |-> {"PM"}]
    ELSE IF e.op = "end" \/ (s.dead /\ (e.op # "crash" \/ ~Has(s, "dur"))) THEN [s |-> s, v |-> {}, dev |-> {}, note |-> {}]
    ELSE IF e.op = "crash" THEN
         \* C14: the image a power cut leaves after the first e.p entries of the device write log
@@ -523,6 +532,7 @@ Step(s, e) ==
                \cup Tag("C11.dir_slots", e.op = "mount" \/ Len(s.raw.dirs) = 0 \/ s.atime \/ \A i \in 1..Len(e.w) : segSlotsOk(e.w[i]))
        v == os.v \cup st3.v \cup tv \cup c10 \cup c11 \cup c11o \cup c12 \cup c13 \cup c05 \cup c08
    IN [s |-> [s EXCEPT !.m = m, !.raw = post, !.D = Dp, !.rv = rv, !.sv = sv, !.svok = svok, !.dead = (\E t \in v : \E pfx \in {"C00.", "C01.", "C02.", "C04.", "C15."} : SubSeqStr(t, pfx)),
+                       !.pm = (\E t \in v : \E pfx \in {"C00.", "C01.", "C02.", "C04.", "C15."} : SubSeqStr(t, pfx)),
                        !.changed = changed, !.mountSt = mountSt, !.ro = ro, !.fiUsable = fiUsable, !.fiW = fiW, !.fiTrust = fiTrust,
                        !.mountRaw = IF e.op = "mount" THEN s.raw ELSE s.mountRaw, !.dur = dur, !.wl = wlNow,
                        !.clk = IF Has(e, "clk") THEN e.clk ELSE s.clk],
